@@ -193,7 +193,7 @@ def callSelectCk : Nat → SStack → Nat → List Expr → List String → List
       if !isLam transform then .error (.internal "AssertionError") else do
         let (parent, c1) ← simpCk fuel st c source
         if !keyFree st parent then .error (sideErr "source mentions a stack key") else
-        let dflt : Except Err (Expr × Nat) := do
+        let dflt : Unit → Except Err (Expr × Nat) := fun _ => do
           let (sel, c2) ← simpCk fuel st c1 transform
           pure (makeSelect parent sel, c2)
         match opCall? parent with
@@ -216,8 +216,8 @@ def callSelectCk : Nat → SStack → Nat → List Expr → List String → List
                   else .error (sideErr "Select nested under SelectMany's parameter")
                 | _ => .error (.internal "AssertionError"))
              | _ => .error (.internal "IndexError"))
-          else dflt
-        | Option.none => dflt
+          else dflt ()
+        | Option.none => dflt ()
     | _ => .error (.internal "IndexError")
 def callSelectManyCk : Nat → SStack → Nat → List Expr → List String → List Expr → Except Err (Expr × Nat)
   | 0, _, _, _, _, _ => .error .fuel
@@ -227,7 +227,7 @@ def callSelectManyCk : Nat → SStack → Nat → List Expr → List String → 
       if !isLam selection then .error (.internal "AssertionError") else do
         let (parent, c1) ← simpCk fuel st c source
         if !keyFree st parent then .error (sideErr "source mentions a stack key") else
-        let dflt : Except Err (Expr × Nat) := do
+        let dflt : Unit → Except Err (Expr × Nat) := fun _ => do
           let (sel, c2) ← simpCk fuel st c1 selection
           pure (fcall "SelectMany" [parent, sel], c2)
         match opCall? parent with
@@ -251,8 +251,8 @@ def callSelectManyCk : Nat → SStack → Nat → List Expr → List String → 
                  let (sel, c3) ← simpCk fuel st c2 conv
                  pure (fcall "SelectMany" [seq, sel], c3)
              | _ => .error (.internal "AssertionError"))
-          else dflt
-        | Option.none => dflt
+          else dflt ()
+        | Option.none => dflt ()
     | _ => .error (.internal "IndexError")
 def callWhereCk : Nat → SStack → Nat → List Expr → List String → List Expr → Except Err (Expr × Nat)
   | 0, _, _, _, _, _ => .error .fuel
@@ -262,7 +262,7 @@ def callWhereCk : Nat → SStack → Nat → List Expr → List String → List 
       if !isLam filter then .error (.internal "AssertionError") else do
         let (parent, c1) ← simpCk fuel st c source
         if !keyFree st parent then .error (sideErr "source mentions a stack key") else
-        let dflt : Except Err (Expr × Nat) := do
+        let dflt : Unit → Except Err (Expr × Nat) := fun _ => do
           let (f', c2) ← simpCk fuel st c1 filter
           if lambdaIsTrue f' then pure (parent, c2) else pure (fcall "Where" [parent, f'], c2)
         match opCall? parent with
@@ -297,8 +297,8 @@ def callWhereCk : Nat → SStack → Nat → List Expr → List String → List 
                   else .error (sideErr "Where nested under SelectMany's parameter")
                 | _ => .error (.internal "AssertionError"))
              | _ => .error (.internal "IndexError"))
-          else dflt
-        | Option.none => dflt
+          else dflt ()
+        | Option.none => dflt ()
     | _ => .error (.internal "IndexError")
 end
 
